@@ -1,6 +1,8 @@
 // C17: geometry export: factory logic (order, duplicate suppression, reversal, ring grouping, degenerate input), WKB encoding, double2string
 #include <osmium/geom/factory.hpp>
 #include <osmium/geom/wkb.hpp>
+#include <osmium/geom/wkt.hpp>
+#include <osmium/geom/geojson.hpp>
 #include <osmium/util/double.hpp>
 #include <osmium/builder/osm_object_builder.hpp>
 #include <osmium/memory/buffer.hpp>
@@ -144,4 +146,32 @@ ENTRY int verif_identity_projection(int x, int y, double* out) {
         out[0] = c.x; out[1] = c.y;
         return 0;
     } catch (const osmium::invalid_location&) { return 1; }
+}
+
+// WKT / GeoJSON text factories.  Projection: the validity check of the default projection, coordinates = the fixed-point integers as doubles (small
+// integers in the harness, so that the decimal text is exact and short).  format 0 WKT, 1 GeoJSON; what 0 point, 1 linestring, 2 polygon, 3 multipolygon
+struct IntProjection {
+    geom::Coordinates operator()(Location location) const { (void)location.lon(); (void)location.lat(); return geom::Coordinates{static_cast<double>(location.x()), static_cast<double>(location.y())}; }
+    int epsg() const noexcept { return 4326; }
+    std::string proj_string() const { return ""; }
+};
+template <typename F> static int text_geom(F& f, int what, int un, int dir, const int* xy, unsigned n, const unsigned* rings, const unsigned char* kinds, unsigned nrings, char* out, unsigned cap, unsigned* outlen) {
+    memory::Buffer b{2048};
+    std::string s;
+    try {
+        const auto u = un ? geom::use_nodes::unique : geom::use_nodes::all; const auto d = dir ? geom::direction::backward : geom::direction::forward;
+        if (what == 3) { build_area(b, xy, rings, kinds, nrings); s = f.create_multipolygon(b.get<Area>(0)); }
+        else {
+            build_way(b, xy, n);
+            const auto& way = b.get<Way>(0);
+            if (what == 0) s = f.create_point(way.nodes()[0]); else if (what == 1) s = f.create_linestring(way, u, d); else s = f.create_polygon(way, u, d);
+        }
+    } catch (const osmium::geometry_error&) { return 1; } catch (const osmium::invalid_location&) { return 2; } catch (const std::exception&) { return 3; }
+    if (s.size() + 1 > cap) return 9;
+    std::memcpy(out, s.c_str(), s.size() + 1); *outlen = static_cast<unsigned>(s.size());
+    return 0;
+}
+ENTRY int verif_text_geom(int format, int what, int un, int dir, const int* xy, unsigned n, const unsigned* rings, const unsigned char* kinds, unsigned nrings, char* out, unsigned cap, unsigned* outlen) {
+    if (format == 0) { geom::GeometryFactory<geom::detail::WKTFactoryImpl, IntProjection> f; return text_geom(f, what, un, dir, xy, n, rings, kinds, nrings, out, cap, outlen); }
+    geom::GeometryFactory<geom::detail::GeoJSONFactoryImpl, IntProjection> f; return text_geom(f, what, un, dir, xy, n, rings, kinds, nrings, out, cap, outlen);
 }
